@@ -1,4 +1,5 @@
 import DendroModel.Model.C20
+import DendroModel.Theory.C20Nexus
 /-! C20 — property theorems about the reader models the driver runs (`drv_c20`).
 
 Clause (a) "every reader terminates": all model functions are total Lean functions defined without fuel and without
@@ -62,7 +63,7 @@ theorem run_spec (k : Cfg) (P : NState → Prop) (Q : NDone → Prop)
 theorem advance_next (k : Cfg) (s0 : NState) (cont : NState → StepRes) (st' : NState)
     (h : NState.advance k s0 cont = .next st') :
     ∃ t q rest, nextT k s0.rest = .tok t q rest ∧
-      cont { s0 with cur := t, rest := rest, trace := s0.trace ++ [t] } = .next st' := by
+      cont { s0 with cur := ⟨t, q⟩, rest := rest, trace := s0.trace ++ [⟨t, q⟩] } = .next st' := by
   unfold NState.advance at h
   split at h
   · cases h
@@ -74,7 +75,7 @@ theorem advance_done (k : Cfg) (s0 : NState) (cont : NState → StepRes) (r : ND
     (h : NState.advance k s0 cont = .done r) :
     r = .err .eos ∨ r = .err .unterminated ∨
     ∃ t q rest, nextT k s0.rest = .tok t q rest ∧
-      cont { s0 with cur := t, rest := rest, trace := s0.trace ++ [t] } = .done r := by
+      cont { s0 with cur := ⟨t, q⟩, rest := rest, trace := s0.trace ++ [⟨t, q⟩] } = .done r := by
   unfold NState.advance at h
   split at h
   · left; cases h; rfl
@@ -174,8 +175,8 @@ theorem step_shape (k : Cfg) (st st' : NState) (h : step k st = .next st') :
                   subst hc; exact hs
 
 /-- a statement is only completed on a semicolon, and completing it does not give input back -/
-theorem step_done_ok (k : Cfg) (st : NState) (t : NTree) (nx : Option (List Char)) (rest' : List Char) (m : Mapper)
-    (tr : List (List Char)) (h : step k st = .done (.ok t nx rest' m tr)) :
+theorem step_done_ok (k : Cfg) (st : NState) (t : NTree) (nx : Option Tok) (rest' : List Char) (m : Mapper)
+    (tr : List Tok) (h : step k st = .done (.ok t nx rest' m tr)) :
     st.cur = semi ∧ rest'.length ≤ st.rest.length ∧ tr = st.trace ∧ st.nesting = 0 ∧ st.phase = .lab := by
   have adv : ∀ (s0 : NState) (cont : NState → StepRes),
       (∀ s, cont s ≠ .done (.ok t nx rest' m tr)) → NState.advance k s0 cont ≠ .done (.ok t nx rest' m tr) := by
@@ -242,7 +243,7 @@ theorem step_done_ok (k : Cfg) (st : NState) (t : NTree) (nx : Option (List Char
 
 /-- from a state whose current token is not `;`, a completed statement has consumed input -/
 theorem run_progress (k : Cfg) (st0 : NState) (hc0 : st0.cur ≠ semi)
-    (t : NTree) (nx : Option (List Char)) (rest' : List Char) (m : Mapper) (tr : List (List Char))
+    (t : NTree) (nx : Option Tok) (rest' : List Char) (m : Mapper) (tr : List Tok)
     (h : run k st0 = .ok t nx rest' m tr) : rest'.length < st0.rest.length := by
   have key := run_spec k
     (fun st => st.rest.length ≤ st0.rest.length ∧ (st.rest.length < st0.rest.length ∨ st.cur = st0.cur))
@@ -270,7 +271,7 @@ theorem run_progress (k : Cfg) (st0 : NState) (hc0 : st0.cur ≠ semi)
 
 /-- a completed statement never gives input back -/
 theorem run_rest_le (k : Cfg) (st0 : NState)
-    (t : NTree) (nx : Option (List Char)) (rest' : List Char) (m : Mapper) (tr : List (List Char))
+    (t : NTree) (nx : Option Tok) (rest' : List Char) (m : Mapper) (tr : List Tok)
     (h : run k st0 = .ok t nx rest' m tr) : rest'.length ≤ st0.rest.length := by
   have key := run_spec k
     (fun st => st.rest.length ≤ st0.rest.length)
@@ -294,7 +295,7 @@ theorem run_rest_le (k : Cfg) (st0 : NState)
   rw [h] at key
   exact key
 
-theorem skipSemis_le (k : Cfg) : ∀ (n : Nat) (cur : Option (List Char)) (rest : List Char) (started : Bool), rest.length ≤ n →
+theorem skipSemis_le (k : Cfg) : ∀ (n : Nat) (cur : Option Tok) (rest : List Char) (started : Bool), rest.length ≤ n →
     ∀ c r s, skipSemis k cur rest started = .ok (c, r, s) →
       r.length ≤ rest.length ∧ (¬ (s = true ∧ r = []) → c ≠ some semi ∧ c ≠ none) := by
   intro n
@@ -334,7 +335,7 @@ theorem skipSemis_le (k : Cfg) : ∀ (n : Nat) (cur : Option (List Char)) (rest 
       · cases h
       · rename_i t q rest' hn
         have hlt := nextT_lt k _ _ _ _ hn
-        have := ih (some t) rest' true (by omega) c r s h
+        have := ih (some ⟨t, q⟩) rest' true (by omega) c r s h
         exact ⟨by omega, this.2⟩
     · rename_i hcond
       simp only [Except.ok.injEq, Prod.mk.injEq] at h
@@ -353,7 +354,7 @@ theorem skipSemis_le (k : Cfg) : ∀ (n : Nat) (cur : Option (List Char)) (rest 
         simp only [Bool.and_eq_true, List.isEmpty_iff] at this
         exact hne ⟨this.1, this.2⟩
 
-theorem skipTrailingSemis_le (k : Cfg) : ∀ (n : Nat) (cur : Option (List Char)) (rest : List Char), rest.length ≤ n →
+theorem skipTrailingSemis_le (k : Cfg) : ∀ (n : Nat) (cur : Option Tok) (rest : List Char), rest.length ≤ n →
     ∀ c r, skipTrailingSemis k cur rest = .ok (c, r) → r.length ≤ rest.length := by
   intro n
   induction n with
@@ -377,21 +378,21 @@ theorem skipTrailingSemis_le (k : Cfg) : ∀ (n : Nat) (cur : Option (List Char)
       · cases h
       · rename_i t q rest' hn
         have hlt := nextT_lt k _ _ _ _ hn
-        have := ih (some t) rest' (by omega) c r h
+        have := ih (some ⟨t, q⟩) rest' (by omega) c r h
         omega
     · simp only [Except.ok.injEq, Prod.mk.injEq] at h; rw [← h.2]; exact Nat.le_refl _
 
 /-! ### parenthesis balance of an accepted tree statement -/
 
 /-- nesting depth after reading a token sequence from depth `d`; `none` when a closing parenthesis has no partner -/
-def depthAux : List (List Char) → Nat → Option Nat
+def depthAux : List Tok → Nat → Option Nat
   | [], d => some d
   | t :: ts, d =>
     if t == lpar then depthAux ts (d + 1)
     else if t == rpar then (if d == 0 then none else depthAux ts (d - 1))
     else depthAux ts d
 
-theorem depthAux_append (a b : List (List Char)) : ∀ d, depthAux (a ++ b) d = (depthAux a d).bind (depthAux b) := by
+theorem depthAux_append (a b : List Tok) : ∀ d, depthAux (a ++ b) d = (depthAux a d).bind (depthAux b) := by
   induction a with
   | nil => intro d; simp [depthAux]
   | cons t ts ih =>
@@ -405,7 +406,7 @@ theorem depthAux_append (a b : List (List Char)) : ∀ d, depthAux (a ++ b) d = 
         · exact ih _
       · exact ih _
 
-theorem depth_snoc (pre : List (List Char)) (c : List Char) (n : Nat) (h : depthAux pre 0 = some n) :
+theorem depth_snoc (pre : List Tok) (c : Tok) (n : Nat) (h : depthAux pre 0 = some n) :
     depthAux (pre ++ [c]) 0 =
       if c == lpar then some (n + 1) else if c == rpar then (if n == 0 then none else some (n - 1)) else some n := by
   rw [depthAux_append, h]
@@ -417,13 +418,13 @@ def Inv (st : NState) : Prop :=
   ∃ pre, st.trace = pre ++ [st.cur] ∧ depthAux pre 0 = some st.nesting ∧
     st.nesting = st.stack.length + (if st.phase = .lab then 0 else 1)
 
-theorem inv_mk (s' : NState) (tr : List (List Char)) (n : Nat)
+theorem inv_mk (s' : NState) (tr : List Tok) (n : Nat)
     (htr : s'.trace = tr ++ [s'.cur]) (hd : depthAux tr 0 = some n) (hn : s'.nesting = n)
     (hrel : n = s'.stack.length + (if s'.phase = .lab then 0 else 1)) : Inv s' :=
   ⟨tr, htr, by rw [hn]; exact hd, by rw [hn]; exact hrel⟩
 
-theorem pyFloatOk_lpar : pyFloatOk lpar = false := by decide
-theorem pyFloatOk_rpar : pyFloatOk rpar = false := by decide
+theorem pyFloatOk_lpar : pyFloatOk lpar.text = false := by decide
+theorem pyFloatOk_rpar : pyFloatOk rpar.text = false := by decide
 
 theorem inv_stepKidsNonComma (k : Cfg) (s1 st' : NState) (hinv : Inv s1) (hph : s1.phase ≠ .lab) (hcur : s1.cur ≠ comma)
     (h : stepKidsNonComma k s1 = .next st') : Inv st' := by
@@ -510,17 +511,19 @@ theorem inv_step (k : Cfg) (st st' : NState) (hinv : Inv st) (h : step k st = .n
           have h1 : (colon == lpar) = false := by decide
           have h2 : (colon == rpar) = false := by decide
           simp [h1, h2]
-        have ht1 : (t == lpar) = false := by
-          cases hx : (t == lpar)
+        have ht1 : ((⟨t, q⟩ : Tok) == lpar) = false := by
+          cases hx : ((⟨t, q⟩ : Tok) == lpar)
           · rfl
-          · have : t = lpar := by simpa using hx
-            rw [this, pyFloatOk_lpar] at hfl; cases hfl
-        have ht2 : (t == rpar) = false := by
-          cases hx : (t == rpar)
+          · have : (⟨t, q⟩ : Tok) = lpar := by simpa using hx
+            have ht : t = lpar.text := congrArg Tok.text this
+            rw [ht, pyFloatOk_lpar] at hfl; cases hfl
+        have ht2 : ((⟨t, q⟩ : Tok) == rpar) = false := by
+          cases hx : ((⟨t, q⟩ : Tok) == rpar)
           · rfl
-          · have : t = rpar := by simpa using hx
-            rw [this, pyFloatOk_rpar] at hfl; cases hfl
-        refine inv_mk _ (st.trace ++ [t]) st.nesting (by simp) ?_ (by simp) (by simp [hph]; exact hrel')
+          · have : (⟨t, q⟩ : Tok) = rpar := by simpa using hx
+            have ht : t = rpar.text := congrArg Tok.text this
+            rw [ht, pyFloatOk_rpar] at hfl; cases hfl
+        refine inv_mk _ (st.trace ++ [⟨t, q⟩]) st.nesting (by simp) ?_ (by simp) (by simp [hph]; exact hrel')
         rw [depth_snoc st.trace _ _ h1]
         simp [ht1, ht2]
       · cases hcont
@@ -565,7 +568,7 @@ theorem inv_step (k : Cfg) (st st' : NState) (hinv : Inv st) (h : step k st = .n
 
 /-- an accepted statement: its tokens are parenthesis-balanced and the last one is the semicolon -/
 theorem run_balanced (k : Cfg) (st0 : NState) (h0 : Inv st0)
-    (t : NTree) (nx : Option (List Char)) (rest' : List Char) (m : Mapper) (tr : List (List Char))
+    (t : NTree) (nx : Option Tok) (rest' : List Char) (m : Mapper) (tr : List Tok)
     (h : run k st0 = .ok t nx rest' m tr) : depthAux tr 0 = some 0 ∧ tr.getLast? = some semi := by
   have key := run_spec k Inv
     (fun r => match r with
@@ -591,208 +594,7 @@ theorem run_balanced (k : Cfg) (st0 : NState) (h0 : Inv st0)
   rw [h] at key
   exact key
 
-/-! ### the NEXUS reader loops -/
-
-/-- a result is not the `internal` marker -/
-def NoInt {α : Type} (r : R α) : Prop := ∀ w, r ≠ .error (.internal w)
-
-/-- a loop body that never fails internally, never gives input back, and consumes input whenever it asks to go on -/
-structure GoodBody (b : RS → R (Bool × RS)) : Prop where
-  noInt : ∀ s, NoInt (b s)
-  le : ∀ s c s', b s = .ok (c, s') → s'.rest.length ≤ s.rest.length
-  lt : ∀ s s', b s = .ok (true, s') → s'.rest.length < s.rest.length
-
-structure Good (f : RS → R RS) : Prop where
-  noInt : ∀ s, NoInt (f s)
-  le : ∀ s s', f s = .ok s' → s'.rest.length ≤ s.rest.length
-
-theorem err_cast {α β : Type} {e : Stop} {w : String} (h : (Except.error e : R α) = .error (.internal w)) :
-    (Except.error e : R β) = .error (.internal w) := by
-  cases h; rfl
-
-/-- **every loop built with `iter` from a good body is good**: the no-progress guard never fires -/
-theorem iter_good (b : RS → R (Bool × RS)) (hb : GoodBody b) : Good (iter b) := by
-  have key : ∀ (n : Nat) (s : RS), s.rest.length ≤ n →
-      NoInt (iter b s) ∧ ∀ s', iter b s = .ok s' → s'.rest.length ≤ s.rest.length := by
-    intro n
-    induction n with
-    | zero =>
-      intro s hl
-      rw [iter]
-      split
-      · rename_i e he
-        exact ⟨fun w hw => hb.noInt s w (by rw [he]; exact err_cast hw), fun s' h => (by cases h)⟩
-      · rename_i s1 h1
-        refine ⟨fun w hw => (by cases hw), fun s' h => ?_⟩
-        simp only [Except.ok.injEq] at h
-        subst h
-        exact hb.le _ _ _ h1
-      · rename_i s1 h1
-        have := hb.lt _ _ h1
-        omega
-    | succ n ih =>
-      intro s hl
-      rw [iter]
-      split
-      · rename_i e he
-        exact ⟨fun w hw => hb.noInt s w (by rw [he]; exact err_cast hw), fun s' h => (by cases h)⟩
-      · rename_i s1 h1
-        refine ⟨fun w hw => (by cases hw), fun s' h => ?_⟩
-        simp only [Except.ok.injEq] at h
-        subst h
-        exact hb.le _ _ _ h1
-      · rename_i s1 h1
-        have hlt := hb.lt _ _ h1
-        rw [if_pos hlt]
-        have := ih s1 (by omega)
-        exact ⟨this.1, fun s' h => (by have := this.2 s' h; omega)⟩
-  exact ⟨fun s => (key s.rest.length s (Nat.le_refl _)).1, fun s s' h => (key s.rest.length s (Nat.le_refl _)).2 s' h⟩
-
-theorem nextTok_spec (s : RS) : NoInt (nextTok s) ∧ ∀ t s', nextTok s = .ok (t, s') →
-    s'.rest.length ≤ s.rest.length ∧ (t.isSome → s'.rest.length < s.rest.length) ∧ (t = none → s'.rest = []) ∧ s'.cfg = s.cfg := by
-  unfold nextTok
-  split
-  · refine ⟨fun w h => (by cases h), fun t s' h => ?_⟩
-    simp only [Except.ok.injEq, Prod.mk.injEq] at h
-    obtain ⟨h1, h2⟩ := h
-    subst h1 h2
-    simp
-  · exact ⟨fun w h => (by simp [perr] at h), fun t s' h => (by simp [perr] at h)⟩
-  · rename_i t q rest hn
-    refine ⟨fun w h => (by cases h), fun t' s' h => ?_⟩
-    simp only [Except.ok.injEq, Prod.mk.injEq] at h
-    obtain ⟨h1, h2⟩ := h
-    subst h1 h2
-    have := nextT_lt _ _ _ _ _ hn
-    simp; omega
-
-theorem nextUcase_spec (s : RS) : NoInt (nextUcase s) ∧ ∀ t s', nextUcase s = .ok (t, s') →
-    s'.rest.length ≤ s.rest.length ∧ (t.isSome → s'.rest.length < s.rest.length) ∧ (t = none → s'.rest = []) := by
-  have hs := nextTok_spec s
-  unfold nextUcase
-  cases hn : nextTok s with
-  | error e =>
-    refine ⟨fun w h => ?_, fun t s' h => ?_⟩
-    · simp only [hn, bind, Except.bind] at h
-      exact hs.1 w (by rw [hn]; exact err_cast h)
-    · simp [hn, bind, Except.bind] at h
-  | ok p =>
-    obtain ⟨t0, s0⟩ := p
-    have h0 := hs.2 t0 s0 hn
-    cases t0 with
-    | none =>
-      refine ⟨fun w h => (by simp [hn, bind, Except.bind, pure, Except.pure] at h), fun t s' h => ?_⟩
-      simp only [hn, bind, Except.bind, pure, Except.pure, Except.ok.injEq, Prod.mk.injEq] at h
-      obtain ⟨h1, h2⟩ := h
-      subst h1 h2
-      exact ⟨h0.1, fun h => (by cases h), fun _ => h0.2.2.1 rfl⟩
-    | some tt =>
-      refine ⟨fun w h => (by simp [hn, bind, Except.bind, pure, Except.pure] at h), fun t s' h => ?_⟩
-      simp only [hn, bind, Except.bind, pure, Except.pure, Except.ok.injEq, Prod.mk.injEq] at h
-      obtain ⟨h1, h2⟩ := h
-      subst h1 h2
-      exact ⟨h0.1, fun _ => h0.2.1 rfl, fun h => (by cases h)⟩
-
-/-- the body of `skip_to_semicolon` -/
-theorem skipToSemi_body_good : GoodBody (fun s => do
-    let (t, s) ← nextTok s
-    pure (!(t == some semi) && !s.eof && t.isSome, s)) := by
-  refine ⟨fun s w h => ?_, fun s c s' h => ?_, fun s s' h => ?_⟩
-  · have hs := nextTok_spec s
-    cases hn : nextTok s with
-    | error e => simp only [hn, bind, Except.bind] at h; exact hs.1 w (by rw [hn]; exact err_cast h)
-    | ok p => simp [hn, bind, Except.bind, pure, Except.pure] at h
-  · have hs := nextTok_spec s
-    cases hn : nextTok s with
-    | error e => simp [hn, bind, Except.bind] at h
-    | ok p =>
-      obtain ⟨t0, s0⟩ := p
-      simp only [hn, bind, Except.bind, pure, Except.pure, Except.ok.injEq, Prod.mk.injEq] at h
-      obtain ⟨_, h2⟩ := h
-      subst h2
-      exact (hs.2 t0 _ hn).1
-  · have hs := nextTok_spec s
-    cases hn : nextTok s with
-    | error e => simp [hn, bind, Except.bind] at h
-    | ok p =>
-      obtain ⟨t0, s0⟩ := p
-      simp only [hn, bind, Except.bind, pure, Except.pure, Except.ok.injEq, Prod.mk.injEq] at h
-      obtain ⟨h1, h2⟩ := h
-      subst h2
-      simp only [Bool.and_eq_true] at h1
-      exact (hs.2 t0 _ hn).2.1 h1.2
-
-theorem skipToSemi_good : Good skipToSemi := iter_good _ skipToSemi_body_good
-
-theorem consumeToEnd_body_good : GoodBody (fun s => do
-    if isEnd s.btok || s.eof || s.btok.isNone then pure (false, s)
-    else
-      let s ← skipToSemi s
-      let (t, s) ← nextUcase s
-      pure (true, { s with btok := t })) := by
-  have hk := skipToSemi_good
-  refine ⟨fun s w h => ?_, fun s c s' h => ?_, fun s s' h => ?_⟩
-  · split at h
-    · simp [pure, Except.pure] at h
-    · cases h1 : skipToSemi s with
-      | error e => simp only [h1, bind, Except.bind] at h; exact hk.noInt s w (by rw [h1]; exact err_cast h)
-      | ok s1 =>
-        have hu := nextUcase_spec s1
-        cases h2 : nextUcase s1 with
-        | error e => simp only [h1, h2, bind, Except.bind] at h; exact hu.1 w (by rw [h2]; exact err_cast h)
-        | ok p => simp [h1, h2, bind, Except.bind, pure, Except.pure] at h
-  · split at h
-    · simp only [pure, Except.pure, Except.ok.injEq, Prod.mk.injEq] at h
-      rw [← h.2]; exact Nat.le_refl _
-    · cases h1 : skipToSemi s with
-      | error e => simp [h1, bind, Except.bind] at h
-      | ok s1 =>
-        have hu := nextUcase_spec s1
-        cases h2 : nextUcase s1 with
-        | error e => simp [h1, h2, bind, Except.bind] at h
-        | ok p =>
-          obtain ⟨t0, s0⟩ := p
-          simp only [h1, h2, bind, Except.bind, pure, Except.pure, Except.ok.injEq, Prod.mk.injEq] at h
-          obtain ⟨_, h4⟩ := h
-          subst h4
-          have := hk.le s s1 h1
-          have := (hu.2 t0 s0 h2).1
-          simp only; omega
-  · split at h
-    · simp [pure, Except.pure] at h
-    · rename_i hcond
-      cases h1 : skipToSemi s with
-      | error e => simp [h1, bind, Except.bind] at h
-      | ok s1 =>
-        have hu := nextUcase_spec s1
-        cases h2 : nextUcase s1 with
-        | error e => simp [h1, h2, bind, Except.bind] at h
-        | ok p =>
-          obtain ⟨t0, s0⟩ := p
-          simp only [h1, h2, bind, Except.bind, pure, Except.pure, Except.ok.injEq, Prod.mk.injEq] at h
-          obtain ⟨_, h4⟩ := h
-          subst h4
-          have hle := hk.le s s1 h1
-          have hu2 := hu.2 t0 s0 h2
-          -- not at end of stream: either `skip_to_semicolon` or the following read consumed input
-          have hne : s.rest ≠ [] := by
-            intro he
-            apply hcond
-            simp [RS.eof, he]
-          cases t0 with
-          | some tt => have := hu2.2.1 rfl; simp only; omega
-          | none =>
-            have := hu2.2.2 rfl
-            have hpos : 0 < s.rest.length := List.length_pos_iff.mpr hne
-            simp only [this, List.length_nil]; exact hpos
-
-theorem consumeToEnd_good (token : Option (List Char)) : Good (consumeToEnd token) := by
-  have h := iter_good _ consumeToEnd_body_good
-  refine ⟨fun s => ?_, fun s s' hs => ?_⟩
-  · unfold consumeToEnd
-    exact h.noInt _
-  · unfold consumeToEnd at hs
-    exact h.le { s with btok := if truthy token = true then Option.map upper token else some (kw "DUMMY") } s' hs
+/-! ### the NEXUS reader: every loop body consumes input whenever it asks to continue (Hoare rules in Theory/C20Nexus.lean) -/
 
 end DendroModel.C20.Aux
 
@@ -813,8 +615,8 @@ theorem token_count_bounded (k : Cfg) (inp : List Char) : (allTokens k inp).1.le
 
 /-- **A tree statement makes progress**: when `_parse_tree_statement` returns a tree, the unread input is strictly
 shorter than before, for every input, current token and symbol table.  Hence `tree_iter` cannot spin. -/
-theorem newick_statement_progress (k : Cfg) (cur : Option (List Char)) (rest : List Char) (started : Bool) (mp : Mapper)
-    (t : NTree) (nx : Option (List Char)) (rest' : List Char) (m : Mapper) (tr : List (List Char))
+theorem newick_statement_progress (k : Cfg) (cur : Option Tok) (rest : List Char) (started : Bool) (mp : Mapper)
+    (t : NTree) (nx : Option Tok) (rest' : List Char) (m : Mapper) (tr : List Tok)
     (h : parseStatement k cur rest started mp = .tree t nx rest' m tr) : rest'.length < rest.length := by
   unfold parseStatement at h
   split at h
@@ -847,7 +649,7 @@ theorem newick_statement_progress (k : Cfg) (cur : Option (List Char)) (rest : L
                 obtain ⟨t1, q1, rest1, hn, hcont⟩ := advance_next k _ _ s hadv
                 simp only [StepRes.next.injEq] at hcont
                 have hlt := nextT_lt k _ _ _ _ hn
-                by_cases hs1 : t1 = semi
+                by_cases hs1 : (⟨t1, q1⟩ : Tok) = semi
                 · -- '(' followed by ';' : the kids phase treats ';' as a child label, whose label loop ends the statement
                   subst hcont
                   have key := run_rest_le k _ tt nx2 r2 m2 tr2 hrun
@@ -870,8 +672,8 @@ theorem newick_statement_progress (k : Cfg) (cur : Option (List Char)) (rest : L
 /-- **Accepted Newick statements are balanced and terminated.**  Whenever `_parse_tree_statement` returns a tree, the
 tokens it consumed for it (`trace`, from the first token of the statement to the last) never close a parenthesis that
 was not opened, end at nesting depth 0, and the last of them is the terminating semicolon. -/
-theorem newick_balanced (k : Cfg) (cur : Option (List Char)) (rest : List Char) (started : Bool) (mp : Mapper)
-    (t : NTree) (nx : Option (List Char)) (rest' : List Char) (m : Mapper) (tr : List (List Char))
+theorem newick_balanced (k : Cfg) (cur : Option Tok) (rest : List Char) (started : Bool) (mp : Mapper)
+    (t : NTree) (nx : Option Tok) (rest' : List Char) (m : Mapper) (tr : List Tok)
     (h : parseStatement k cur rest started mp = .tree t nx rest' m tr) :
     depthAux tr 0 = some 0 ∧ tr.getLast? = some semi := by
   unfold parseStatement at h
@@ -913,10 +715,13 @@ theorem newick_balanced (k : Cfg) (cur : Option (List Char)) (rest : List Char) 
             subst htr
             exact hb
 
-/-- **The Newick reader never fails internally**: on every text the model's verdict is a list of trees or a
-data-parse error (the no-progress guard of `tree_iter` never fires). -/
+/-- **`tree_iter` cannot spin.**  The only `internal` of `readNewick` is the no-progress guard of `treeIter`; by
+`newick_statement_progress` it is dead, i.e. the statement loop of the Newick reader terminates on every text by
+consuming input.  (This is the termination clause.  The "no AttributeError / IndexError" clause has no counterpart to
+prove here: the model's tokens are `Option`/explicit end of stream by construction; that clause is checked on the
+implementation by the oracle.) -/
 theorem newick_never_internal (text : List Char) (w : String) : readNewick text ≠ .internal w := by
-  have key : ∀ (n : Nat) (k : Cfg) (cur : Option (List Char)) (rest : List Char) (started : Bool) (mp : Mapper) (acc : List NTree),
+  have key : ∀ (n : Nat) (k : Cfg) (cur : Option Tok) (rest : List Char) (started : Bool) (mp : Mapper) (acc : List NTree),
       rest.length ≤ n → treeIter k cur rest started mp acc ≠ .internal w := by
     intro n
     induction n with
@@ -942,7 +747,9 @@ theorem newick_never_internal (text : List Char) (w : String) : readNewick text 
   exact key text.length nwCfg none text false {} [] (Nat.le_refl _)
 
 /-- **Declared versus found (PHYLIP)**: a matrix is only returned when the first line declares `ntax nchar` and the
-matrix has exactly `ntax` rows of exactly `nchar` cells each — for every text, mode and symbol set. -/
+matrix has exactly `ntax` rows of exactly `nchar` cells each — for every text, mode and symbol set.
+(Read off the two final guards of `readPhylip`, which mirror the repaired `PhylipReader._read`: the theorem pins those
+guards — dropping either breaks it — but says nothing about how the row loops fill the rows.) -/
 theorem ok_dims (sym : Char → Bool) (strict interleaved : Bool) (text : List Char) (rows : Rows)
     (h : readPhylip sym strict interleaved text = .ok rows) :
     ∃ ntax nchar, (splitLines text).head?.bind parseHeader = some (ntax, nchar) ∧ 0 < ntax ∧ 0 < nchar ∧
@@ -980,25 +787,839 @@ theorem ok_dims (sym : Char → Bool) (strict interleaved : Bool) (text : List C
                   simpa using this
               · cases h
 
-/-- **The scan-to-';' and scan-to-END loops stop at end of stream.**  `skip_to_semicolon` and
-`_consume_to_end_of_block` — the loops every NEXUS block parser leans on — return (with input no longer than before)
-or raise a parse error on *every* input, in particular on every prefix `doc.take n` of a document: the
-no-progress marker `internal` is never produced.
-`_partial`: the same statement for the complete `readNexus` (every block and statement loop is an `iter` of a body that
-has to be shown good in the sense of `Aux.GoodBody`, cf. `Aux.iter_good`) is not proved here; the driver reports
-`internal` verbatim, so any such outcome would surface as a correspondence disagreement (none on > 10^5 NEXUS reads per run). -/
-theorem eof_is_parse_error_partial (doc : List Char) (n : Nat) (s : RS) (token : Option (List Char)) (w : String) :
-    skipToSemi { s with rest := doc.take n } ≠ .error (.internal w) ∧
-    consumeToEnd token { s with rest := doc.take n } ≠ .error (.internal w) ∧
-    (∀ s', skipToSemi { s with rest := doc.take n } = .ok s' → s'.rest.length ≤ (doc.take n).length) :=
-  ⟨skipToSemi_good.noInt _ w, (consumeToEnd_good token).noInt _ w, fun s' h => skipToSemi_good.le _ s' h⟩
+end DendroModel.C20
 
-/-- every `iter` loop whose body consumes input whenever it continues never reports `internal` and never gives input back -/
-theorem reader_loops_total (b : RS → R (Bool × RS)) (hb : GoodBody b) (s : RS) (w : String) :
+namespace DendroModel.C20.Aux
+open DendroModel DendroModel.C20
+
+theorem skipToSemi_post (s : RS) : Post (skipToSemi s) (LeQ s) := by
+  unfold skipToSemi
+  refine iter_post _ ?_ s
+  intro s
+  pb
+  rename_i t s1 hp
+  refine Post.pure ?_
+  simp only [BodyQ]
+  refine ⟨hp.1, fun h => ?_⟩
+  simp only [Bool.and_eq_true] at h
+  exact hp.2.1 h.2
+macro_rules | `(tactic| pbind) => `(tactic| refine Post.bind (skipToSemi_post _) ?_)
+
+theorem consumeToEnd_post (token : Option (List Char)) (s : RS) : Post (consumeToEnd token s) (LeQ s) := by
+  unfold consumeToEnd
+  refine Post.mono (iter_post _ ?_ _) (fun a h => h)
+  intro s
+  try dsimp only
+  split
+  · pfin
+  · rename_i hc
+    pb
+    pb
+    rename_i s1 hp1 t s2 hp
+    have hne : s.rest ≠ [] := by
+      intro he; apply hc; simp [RS.eof, he]
+    have hpos : 0 < s.rest.length := List.length_pos_iff.mpr hne
+    refine Post.pure ?_
+    simp only [BodyQ, LeQ] at *
+    refine ⟨by omega, fun _ => ?_⟩
+    cases t with
+    | some tt => have := hp.2.1 rfl; omega
+    | none => have := hp.2.2 rfl; simp [this]; exact hpos
+macro_rules | `(tactic| pbind) => `(tactic| refine Post.bind (consumeToEnd_post _ _) ?_)
+
+theorem parseTitle_post (s : RS) : Post (parseTitle s) (fun s' => s'.rest.length < s.rest.length) := by
+  unfold parseTitle
+  pb
+  pb
+  split
+  · pfin
+  · pfin
+macro_rules | `(tactic| pbind) => `(tactic| refine Post.bind (parseTitle_post _) ?_)
+
+theorem parseDimensions_post (s : RS) : Post (parseDimensions s) (fun s' => s'.rest.length < s.rest.length) := by
+  unfold parseDimensions
+  pb
+  refine Post.mono (iter_post _ ?_ _) ?_
+  · intro s
+    try dsimp only
+    split
+    · pfin
+    · refine Post.bind (Q1 := fun s' => s'.rest.length ≤ s.rest.length) ?_ ?_
+      · split
+        · pb
+          split
+          · pb
+            split <;> pfin
+          · pfin
+        · split
+          · pb
+            split
+            · pb
+              split <;> pfin
+            · pfin
+          · split <;> pfin
+      · intro s1 h1
+        pb
+        pfin
+  · intro a ha
+    simp only [LeQ] at ha
+    try dsimp only at *
+    omega
+macro_rules | `(tactic| pbind) => `(tactic| refine Post.bind (parseDimensions_post _) ?_)
+
+theorem parseTaxlabels_post (i : Nat) (s : RS) : Post (parseTaxlabels i s) (fun s' => s'.rest.length < s.rest.length) := by
+  unfold parseTaxlabels
+  pb
+  refine Post.mono (iter_post _ ?_ _) ?_
+  · intro s
+    try dsimp only
+    split
+    · pfin
+    · refine Post.bind (Q1 := fun s' => s'.rest.length ≤ s.rest.length) ?_ ?_
+      · (repeat' split) <;> pfin
+      · intro s1 h1
+        pb
+        pfin
+  · intro a ha
+    simp only [LeQ] at ha
+    try dsimp only at *
+    omega
+macro_rules | `(tactic| pbind) => `(tactic| refine Post.bind (parseTaxlabels_post _ _) ?_)
+
+theorem parseLink_post (s : RS) : Post (parseLink s) (fun s' => s'.rest.length < s.rest.length) := by
+  unfold parseLink
+  pb
+  refine Post.mono (iter_post _ ?_ _) ?_
+  · intro s
+    try dsimp only
+    split
+    · pfin
+    · split
+      · pb
+        split
+        · pfin
+        · pb
+          pb
+          pfin
+      · split
+        · pb
+          split
+          · pfin
+          · pb
+            pb
+            pfin
+        · pb
+          pfin
+  · intro a ha
+    simp only [LeQ] at ha
+    try dsimp only at *
+    omega
+macro_rules | `(tactic| pbind) => `(tactic| refine Post.bind (parseLink_post _) ?_)
+
+theorem getTns_post (title : Option (List Char)) (s : RS) : Post (getTns title s) (fun p => p.2.rest = s.rest) := by
+  unfold getTns
+  split
+  · split
+    · exact Post.pure rfl
+    · split
+      · exact Post.pure rfl
+      · pfin
+  · dsimp only
+    split
+    · exact Post.pure rfl
+    · pfin
+macro_rules | `(tactic| pbind) => `(tactic| refine Post.bind (getTns_post _ _) ?_)
+
+theorem taxaBlock_post (s : RS) : Post (taxaBlock s) (LeQ s) := by
+  unfold taxaBlock
+  pb
+  refine Post.bind (iter_post _ ?_ _) ?_
+  · intro s
+    try dsimp only
+    split
+    · pfin
+    · pb
+      refine Post.bind (Q1 := fun s' => s'.rest.length < s.rest.length) ?_ ?_
+      · split
+        · pb
+          pfin
+        · pfin
+      · intro s2 h2
+        refine Post.bind (Q1 := fun s' => s'.rest.length < s.rest.length) ?_ ?_
+        · split
+          · refine Post.mono (parseDimensions_post _) ?_
+            intro a ha; omega
+          · pfin
+        · intro s3 h3
+          refine Post.bind (Q1 := fun s' => s'.rest.length < s.rest.length) ?_ ?_
+          · split
+            · refine Post.mono (parseTaxlabels_post _ _) ?_
+              intro a ha
+              split at ha <;> ((try dsimp only at ha); omega)
+            · pfin
+          · intro s4 h4
+            pfin
+  · intro s5 h5
+    simp only [LeQ] at h5
+    try dsimp only at *
+    refine Post.mono (skipToSemi_post _) ?_
+    intro a ha
+    simp only [LeQ] at *
+    omega
+macro_rules | `(tactic| pbind) => `(tactic| refine Post.bind (taxaBlock_post _) ?_)
+
+theorem ensureNs_post (s : RS) : Post (ensureNs s) (fun s' => s'.rest = s.rest) := by
+  unfold ensureNs
+  split
+  · exact Post.pure rfl
+  · pb
+    rename_i i s1 h
+    exact Post.pure h
+macro_rules | `(tactic| pbind) => `(tactic| refine Post.bind (ensureNs_post _) ?_)
+
+theorem ensureMapper_rest (s : RS) : (ensureMapper s).rest = s.rest := by
+  unfold ensureMapper; split <;> rfl
+
+theorem parseTranslate_post (s : RS) : Post (parseTranslate s) (LeQ s) := by
+  unfold parseTranslate
+  refine Post.mono (iter_post _ ?_ _) ?_
+  · intro s
+    pb
+    split
+    · pfin
+    · pb
+      refine Post.bind (Q1 := fun _ => True) ?_ ?_
+      · (repeat' split) <;> first | exact Post.perr _ | exact Post.pure trivial
+      · intro p _
+        pb
+        rename_i hq
+        obtain ⟨hq1, _, _⟩ := hq
+        (repeat' split) <;> first
+          | exact Post.perr _
+          | (refine Post.pure ?_; simp only [BodyQ]; exact ⟨by omega, fun _ => by omega⟩)
+          | (refine Post.pure ?_; simp only [BodyQ]; exact ⟨by omega, fun h => absurd h (by decide)⟩)
+  · intro a ha
+    simp only [LeQ] at *
+    have := congrArg List.length (ensureMapper_rest s)
+    split at ha <;> (try dsimp only at ha) <;> omega
+macro_rules | `(tactic| pbind) => `(tactic| refine Post.bind (parseTranslate_post _) ?_)
+
+theorem parseTreeStatement_post (s : RS) : Post (parseTreeStatement s) (fun s' => s'.rest.length < s.rest.length) := by
+  unfold parseTreeStatement
+  pb
+  rename_i t1 s1 h1
+  refine Post.bind (Q1 := fun p => p.2.rest.length ≤ s.rest.length) ?_ ?_
+  · split
+    · refine Post.mono (nextTok_post _) ?_
+      intro a ha; omega
+    · exact Post.pure h1.1
+  · intro p hp
+    rcases p with ⟨t2, s2⟩
+    try dsimp only at *
+    pb
+    rename_i t3 s3 h3
+    split
+    · pfin
+    · pb
+      rename_i t4 s4 h4
+      split
+      · pfin
+      · pfin
+      · rename_i tr nx rest' m' trace hps
+        have := newick_statement_progress _ _ _ _ _ _ _ _ _ _ hps
+        refine Post.pure ?_
+        try dsimp only
+        omega
+macro_rules | `(tactic| pbind) => `(tactic| refine Post.bind (parseTreeStatement_post _) ?_)
+
+theorem startTreeList_rest (s : RS) : (startTreeList s).rest = s.rest := by
+  unfold startTreeList; split <;> rfl
+theorem closeMapper_rest (s : RS) : (closeMapper s).rest = s.rest := by
+  unfold closeMapper; split <;> rfl
+
+theorem treesBlock_post (s : RS) : Post (treesBlock s) (LeQ s) := by
+  unfold treesBlock
+  pb
+  rename_i s0 h0
+  refine Post.bind (iter_post _ ?_ _) ?_
+  · intro s
+    try dsimp only
+    split
+    · pfin
+    · pb
+      rename_i hc t s1 h1
+      have hne : s.rest ≠ [] := by
+        intro he; apply hc; simp [RS.eof, he]
+      have hpos : 0 < s.rest.length := List.length_pos_iff.mpr hne
+      have hlt : s1.rest.length < s.rest.length := by
+        cases t with
+        | some tt => exact h1.2.1 rfl
+        | none => have := h1.2.2 rfl; simp [this]; exact hpos
+      split
+      · pb
+        pfin
+      · split
+        · pb
+          pfin
+        · split
+          · pb
+            rename_i s2 h2
+            pb
+            rename_i s3 h3
+            simp only [LeQ] at h3
+            refine Post.pure ?_
+            simp only [BodyQ]
+            try dsimp only at *
+            rw [h2] at h3
+            exact ⟨by omega, fun _ => by omega⟩
+          · split
+            · pb
+              rename_i s2 h2
+              refine Post.bind (iter_post _ ?_ _) ?_
+              · intro s
+                pb
+                (repeat' split) <;> pfin
+              · intro s4 h4
+                simp only [LeQ] at h4
+                rw [startTreeList_rest, ensureMapper_rest, h2] at h4
+                refine Post.pure ?_
+                simp only [BodyQ]
+                exact ⟨by omega, fun _ => by omega⟩
+            · split <;> pfin
+  · intro s5 h5
+    simp only [LeQ] at h5
+    try dsimp only at *
+    refine Post.mono (skipToSemi_post _) ?_
+    intro a ha
+    simp only [LeQ] at *
+    rw [closeMapper_rest] at ha
+    omega
+macro_rules | `(tactic| pbind) => `(tactic| refine Post.bind (treesBlock_post _) ?_)
+
+theorem ite_rest (c : Bool) (x y : RS) (h : y.rest = x.rest) : (if c then x else y).rest = x.rest := by
+  split <;> simp [h]
+
+theorem fmtDatatype_post (s : RS) : Post (fmtDatatype s) (BodyQ s) := by
+  unfold fmtDatatype
+  pb
+  split
+  · pfin
+  · pb
+    rename_i t2 s2 h2
+    pb
+    rename_i t3 s3 h3
+    refine Post.pure ?_
+    simp only [BodyQ]
+    have : ∀ (x : RS), (if t2 == kw "DNA" || t2 == kw "NUCLEOTIDES" then { x with dataType := DT.dna }
+        else if t2 == kw "RNA" then { x with dataType := .rna }
+        else if t2 == kw "NUCLEOTIDE" then { x with dataType := .nucleotide }
+        else if t2 == kw "PROTEIN" then { x with dataType := .protein }
+        else if t2 == kw "CONTINUOUS" then { x with dataType := .continuous }
+        else { x with dataType := .standard, symbols := kw "0123456789" }).rest = x.rest := by
+      intro x; (repeat' split) <;> rfl
+    rw [this] at h3
+    exact ⟨by omega, fun _ => by omega⟩
+
+theorem fmtSymbolsLoop_post (s : RS) : Post (fmtSymbolsLoop s) (LeQ s) := by
+  unfold fmtSymbolsLoop
+  refine iter_post _ ?_ s
+  intro s
+  try dsimp only
+  split
+  · pfin
+  · pb
+    rename_i t1 s1 h1
+    refine Post.pure ?_
+    simp only [BodyQ]
+    have : (if isInfix s.stok s.symbols then s else { s with symbols := s.symbols ++ s.stok }).rest = s.rest := by
+      split <;> rfl
+    rw [this] at h1
+    exact ⟨by omega, fun _ => by omega⟩
+macro_rules | `(tactic| pbind) => `(tactic| refine Post.bind (fmtSymbolsLoop_post _) ?_)
+
+theorem fmtSymbols_post (s : RS) : Post (fmtSymbols s) (BodyQ s) := by
+  unfold fmtSymbols
+  pb
+  split
+  · pfin
+  · pb
+    split
+    · pfin
+    · pb
+      pb
+      rename_i s4 h4
+      simp only [LeQ] at h4
+      pb
+      pfin
+
+theorem fmtAssign_post (f : Nat) (s : RS) : Post (fmtAssign f s) (BodyQ s) := by
+  unfold fmtAssign
+  pb
+  split
+  · pfin
+  · pb
+    pb
+    rename_i v s2 h2 t3 s3 h3
+    refine Post.pure ?_
+    simp only [BodyQ]
+    have : (if f == 0 then { s3 with gap := v } else if f == 1 then { s3 with missing := v } else { s3 with matchc := [v, lower v] }).rest = s3.rest := by
+      (repeat' split) <;> rfl
+    try dsimp only
+    rw [this]
+    exact ⟨by omega, fun _ => by omega⟩
+
+theorem fmtInterleave_post (s : RS) : Post (fmtInterleave s) (BodyQ s) := by
+  unfold fmtInterleave
+  pb
+  split
+  · pb
+    pb
+    pfin
+  · pfin
+
+theorem parseFormat_post (s : RS) : Post (parseFormat s) (fun s' => s'.rest.length < s.rest.length) := by
+  unfold parseFormat
+  pb
+  refine Post.mono (iter_post _ ?_ _) ?_
+  · intro s
+    try dsimp only
+    split
+    · pfin
+    · split
+      · exact fmtDatatype_post s
+      · split
+        · exact fmtSymbols_post s
+        · split
+          · exact fmtAssign_post _ s
+          · split
+            · exact fmtInterleave_post s
+            · split
+              · exact fmtAssign_post _ s
+              · split
+                · exact fmtAssign_post _ s
+                · split
+                  · pfin
+                  · pb
+                    pfin
+  · intro a ha
+    simp only [LeQ] at ha
+    try dsimp only at *
+    omega
+macro_rules | `(tactic| pbind) => `(tactic| refine Post.bind (parseFormat_post _) ?_)
+
+theorem symbolTest_post (sy : Syms) (s : RS) : Post (symbolTest sy s) (fun _ => True) := by
+  unfold symbolTest
+  split
+  · refine Post.pure ?_; trivial
+  · refine Post.pure ?_; trivial
+  · refine Post.pure ?_; trivial
+  · refine Post.pure ?_; trivial
+  · exact Post.unmodelled _
+  · dsimp only
+    refine Post.ite (Post.perr _) (Post.ite (Post.perr _) ?_)
+    refine Post.pure ?_; trivial
+
+theorem cellsOf_post (symOk : Char → Bool) (matchc : List (List Char)) (firstLen : Option Nat) (base nchar : Nat) :
+    ∀ (cs : List Char) (n : Nat), Post (cellsOf symOk matchc firstLen base nchar cs n) (fun _ => True)
+  | [], n => by unfold cellsOf; exact Post.pure trivial
+  | c :: cs, n => by
+    unfold cellsOf
+    try dsimp only
+    exact Post.ite (Post.perr _) (Post.ite (Post.perr _) (cellsOf_post symOk matchc firstLen base nchar cs (n + 1)))
+
+theorem readStates_post (symOk : Char → Bool) (r : Nat) (s : RS) : Post (readStates symOk r s) (LeQ s) := by
+  unfold readStates
+  try dsimp only
+  have hite : ∀ (x : RS) (c : Bool) (k : Cfg), (if c then { x with cfg := k } else x).rest = x.rest := by
+    intro x c k; split <;> rfl
+  refine Post.bind (iter_post _ ?_ _) ?_
+  · intro s
+    try dsimp only
+    refine Post.ite ?_ ?_
+    · pfin
+    · pb
+      rename_i t1 s1 h1
+      refine Post.ite ?_ ?_
+      · refine Post.bind (iter_post _ ?_ _) ?_
+        · intro s
+          pb
+          refine Post.ite ?_ ?_ <;> pfin
+        · intro s3 h3
+          simp only [LeQ] at h3
+          try dsimp only at *
+          refine Post.ite ?_ ?_ <;> pfin
+      · refine Post.ite ?_ ?_
+        · pfin
+        · refine Post.ite ?_ ?_
+          · pfin
+          · refine Post.bind (cellsOf_post _ _ _ _ _ _ _) ?_
+            intro n _
+            pfin
+  · intro s5 h5
+    simp only [LeQ] at h5
+    rw [hite] at h5
+    try dsimp only at h5
+    refine Post.ite ?_ ?_
+    · refine Post.pure ?_
+      simp only [LeQ]
+      omega
+    · refine Post.pure ?_
+      simp only [LeQ]
+      try dsimp only
+      rw [hite]
+      omega
+macro_rules | `(tactic| pbind) => `(tactic| refine Post.bind (readStates_post _ _ _) ?_)
+
+theorem rowFor_post (i : Nat) (label : List Char) (s : RS) : Post (rowFor i label s) (fun p => p.2.rest = s.rest) := by
+  unfold rowFor
+  try dsimp only
+  refine Post.bind (Q1 := fun p => p.2.rest = s.rest) ?_ ?_
+  · (repeat' split) <;> first | exact Post.perr _ | exact Post.pure rfl
+  · intro p hp
+    rcases p with ⟨tx, s1⟩
+    try dsimp only at *
+    split
+    · exact Post.pure hp
+    · exact Post.pure hp
+macro_rules | `(tactic| pbind) => `(tactic| refine Post.bind (rowFor_post _ _ _) ?_)
+
+theorem matrixRows_post (symOk : Char → Bool) (i nchar : Nat) (s : RS) : Post (matrixRows symOk i nchar s) (LeQ s) := by
+  unfold matrixRows
+  refine iter_post _ ?_ s
+  intro s
+  split
+  · pfin
+  · refine Post.ite' (fun _ => ?_) (fun hne => ?_)
+    · pfin
+    · pb
+      rename_i r s3 h3
+      pb
+      rename_i s4 h4
+      simp only [LeQ] at h4
+      rw [h3] at h4
+      have hf : ∀ (x : RS) (c : Bool) (k : Option Nat), (if c then { x with first := k } else x).rest = x.rest := by
+        intro x c k; split <;> rfl
+      try dsimp only
+      refine Post.ite ?_ ?_
+      · refine Post.ite ?_ (Post.perr _)
+        pb
+        rename_i t5 s5 h5
+        rw [hf] at h5
+        pfin
+      · refine Post.ite (Post.perr _) ?_
+        pb
+        rename_i t6 s6 h6
+        rw [hf] at h6
+        obtain ⟨h6a, h6b, h6c⟩ := h6
+        refine Post.pure ?_
+        simp only [BodyQ]
+        try dsimp only
+        refine ⟨by omega, fun _ => ?_⟩
+        -- the row label was not end of stream, so either the row or the next read consumed input
+        have hpos : 0 < s.rest.length := by
+          have : s.rest ≠ [] := by
+            intro he; apply hne; simp [RS.eof, he]
+          exact List.length_pos_iff.mpr this
+        cases t6 with
+        | some tt => have := h6b rfl; omega
+        | none => have := h6c rfl; simp [this]; exact hpos
+macro_rules | `(tactic| pbind) => `(tactic| refine Post.bind (matrixRows_post _ _ _ _) ?_)
+
+theorem matrixCheck_post (nchar : Nat) (s : RS) : Post (matrixCheck nchar s) (fun s' =>
+    s'.rest = s.rest ∧ s'.mats = s.mats ++ [s.rows.map (·.2)] ∧ (∀ x ∈ s.rows.map (·.2), x = nchar) ∧
+    (∀ n, s.blockNtax = some n → (s.rows.map (·.2)).length ≤ n) ∧ s'.blockNtax = s.blockNtax) := by
+  unfold matrixCheck
+  refine Post.ite' (fun _ => Post.perr _) (fun hn => ?_)
+  refine Post.ite' (fun hall => ?_) (fun _ => Post.perr _)
+  refine Post.pure ⟨rfl, rfl, ?_, ?_, rfl⟩
+  · intro x hx
+    simp only [List.mem_map] at hx
+    obtain ⟨r, hr, hrx⟩ := hx
+    have := (List.all_eq_true.mp hall) r hr
+    simp only [beq_iff_eq] at this
+    omega
+  · intro n hbn
+    rw [hbn] at hn
+    simp only [decide_eq_true_eq, List.length_map] at hn ⊢
+    omega
+
+theorem parseMatrix_post (sy : Syms) (s : RS) : Post (parseMatrix sy s) (LeQ s) := by
+  unfold parseMatrix
+  refine Post.ite (Post.perr _) ?_
+  pb
+  rename_i i s1 h1
+  refine Post.bind (symbolTest_post _ _) ?_
+  intro symOk _
+  pb
+  rename_i t2 s2 h2
+  try dsimp only at h2
+  pb
+  rename_i s3 h3
+  simp only [LeQ] at h3
+  try dsimp only at h3
+  refine Post.mono (matrixCheck_post _ _) ?_
+  intro a ha
+  simp only [LeQ]
+  rw [ha.1]
+  rw [h1] at h2
+  omega
+
+/-- what a MATRIX statement that is accepted has appended: one matrix whose every row has the declared NCHAR -/
+theorem parseMatrix_dims (sy : Syms) (s : RS) : Post (parseMatrix sy s) (fun s' =>
+    0 < s.ntax.getD 0 ∧ 0 < s.nchar.getD 0 ∧
+    ∃ row, s'.mats.getLast? = some row ∧ (∀ x ∈ row, x = s.nchar.getD 0) ∧ (∀ n, s'.blockNtax = some n → row.length ≤ n)) := by
+  unfold parseMatrix
+  refine Post.ite' (fun _ => Post.perr _) (fun hz => ?_)
+  have hz' : 0 < s.ntax.getD 0 ∧ 0 < s.nchar.getD 0 := by
+    simp only [Bool.or_eq_true, beq_iff_eq, not_or] at hz
+    omega
+  refine Post.bind (Q1 := fun p => p.2.nchar = s.nchar) ?_ ?_
+  · unfold getTns
+    split
+    · split
+      · exact Post.pure rfl
+      · split
+        · exact Post.pure rfl
+        · pfin
+    · dsimp only
+      split
+      · exact Post.pure rfl
+      · pfin
+  · rintro ⟨i, s1⟩ h1
+    try dsimp only at h1 ⊢
+    refine Post.bind (symbolTest_post _ _) ?_
+    intro symOk _
+    refine Post.bind (Q1 := fun _ => True) (Post.mono (nextTok_post _) (fun _ _ => trivial)) ?_
+    rintro ⟨t2, s2⟩ _
+    refine Post.bind (Q1 := fun _ => True) (Post.mono (matrixRows_post _ _ _ _) (fun _ _ => trivial)) ?_
+    intro s3 _
+    refine Post.mono (matrixCheck_post _ s3) ?_
+    intro a ha
+    refine ⟨hz'.1, hz'.2, s3.rows.map (·.2), ?_, ?_, ?_⟩
+    · rw [ha.2.1]; simp
+    · intro x hx
+      have := ha.2.2.1 x hx
+      rw [this, h1]
+    · intro n hn
+      rw [ha.2.2.2.2] at hn
+      exact ha.2.2.2.1 n hn
+macro_rules | `(tactic| pbind) => `(tactic| refine Post.bind (parseMatrix_post _ _) ?_)
+
+/-- the common shape of the block loops: a first `next_token_ucase` at a point that is not the end of the stream -/
+theorem nextUcase_lt (s s1 : RS) (t : Option (List Char)) (hne : s.rest ≠ [])
+    (h : s1.rest.length ≤ s.rest.length ∧ (t.isSome → s1.rest.length < s.rest.length) ∧ (t = none → s1.rest = [])) :
+    s1.rest.length < s.rest.length := by
+  have hpos : 0 < s.rest.length := List.length_pos_iff.mpr hne
+  cases t with
+  | some tt => exact h.2.1 rfl
+  | none => have := h.2.2 rfl; simp [this]; exact hpos
+
+theorem charsBlock_post (sy : Syms) (s : RS) : Post (charsBlock sy s) (LeQ s) := by
+  unfold charsBlock
+  pb
+  rename_i s0 h0
+  refine Post.bind (iter_post _ ?_ _) ?_
+  · intro s
+    try dsimp only
+    refine Post.ite' (fun _ => ?_) (fun hc => ?_)
+    · pfin
+    · pb
+      rename_i t s1 h1
+      have hlt := nextUcase_lt s s1 t (by intro he; apply hc; simp [RS.eof, he]) h1
+      refine Post.ite ?_ ?_
+      · pb
+        pfin
+      · refine Post.ite ?_ ?_
+        · pb
+          pfin
+        · refine Post.ite ?_ ?_
+          · pb
+            rename_i s2 h2
+            try dsimp only at h2
+            refine Post.pure ?_
+            simp only [BodyQ]
+            have : ∀ (o : Option Nat) (x : RS), (restoreNtax o x).rest = x.rest := by
+              intro o x; unfold restoreNtax; split <;> rfl
+            try dsimp only
+            rw [this]
+            exact ⟨by omega, fun _ => by omega⟩
+          · refine Post.ite ?_ ?_
+            · pb
+              pfin
+            · refine Post.ite ?_ ?_
+              · pb
+                rename_i s2 h2
+                simp only [LeQ] at h2
+                pfin
+              · refine Post.ite ?_ ?_ <;> pfin
+  · intro s5 h5
+    simp only [LeQ] at h5
+    try dsimp only at *
+    refine Post.mono (skipToSemi_post _) ?_
+    intro a ha
+    simp only [LeQ] at *
+    omega
+
+theorem setsBlock_post (s : RS) : Post (setsBlock s) (LeQ s) := by
+  unfold setsBlock
+  pb
+  rename_i s0 h0
+  refine Post.bind (iter_post _ ?_ _) ?_
+  · intro s
+    try dsimp only
+    refine Post.ite' (fun _ => ?_) (fun hc => ?_)
+    · pfin
+    · pb
+      rename_i t s1 h1
+      have hlt := nextUcase_lt s s1 t (by intro he; apply hc; simp [RS.eof, he]) h1
+      refine Post.ite ?_ ?_
+      · pb
+        pfin
+      · refine Post.ite ?_ ?_
+        · pb
+          pfin
+        · refine Post.ite (Post.unmodelled _) ?_
+          refine Post.ite ?_ ?_ <;> pfin
+  · intro s5 h5
+    simp only [LeQ] at h5
+    refine Post.mono (skipToSemi_post _) ?_
+    intro a ha
+    simp only [LeQ] at *
+    omega
+
+theorem skipToBegin_body (s : RS) : Post ((fun (s : RS) => do
+      let (t, s) ← nextUcase s
+      pure (t.isSome && t != some (kw "BEGIN") && !s.eof, s)) s) (BodyQ s) := by
+  pb
+  rename_i t s1 h1
+  refine Post.pure ?_
+  simp only [BodyQ]
+  refine ⟨h1.1, fun h => ?_⟩
+  simp only [Bool.and_eq_true] at h
+  exact h1.2.1 h.1.1
+
+theorem skipToBegin_body_lt (s : RS) (hne : s.rest ≠ []) : Post ((fun (s : RS) => do
+      let (t, s) ← nextUcase s
+      pure (t.isSome && t != some (kw "BEGIN") && !s.eof, s)) s) (fun p => p.2.rest.length < s.rest.length) := by
+  pb
+  rename_i t s1 h1
+  exact Post.pure (nextUcase_lt s s1 t hne h1)
+
+/-- away from the end of the stream, skipping to BEGIN reads at least one token -/
+theorem skipToBegin_post (s : RS) (hne : s.rest ≠ []) : Post (skipToBegin s) (fun s' => s'.rest.length < s.rest.length) := by
+  unfold skipToBegin
+  rw [iter]
+  split
+  · rename_i e he
+    refine ⟨fun w hw => ?_, fun a ha => (by cases ha)⟩
+    cases hw
+    exact (skipToBegin_body s).1 w he
+  · rename_i s1 he
+    exact Post.ok ((skipToBegin_body_lt s hne).2 _ he)
+  · rename_i s1 he
+    have h2 := (skipToBegin_body_lt s hne).2 _ he
+    try dsimp only at h2
+    rw [if_pos h2]
+    refine Post.mono (iter_post _ skipToBegin_body s1) ?_
+    intro a ha
+    simp only [LeQ] at ha
+    omega
+
+theorem readBlock_post (sy : Syms) (s : RS) (hne : s.rest ≠ []) : Post (readBlock sy s) (fun s' => s'.rest.length < s.rest.length) := by
+  unfold readBlock
+  refine Post.bind (skipToBegin_post s hne) ?_
+  · intro s1 h1
+    pb
+    rename_i t s2 h2
+    have h2a := h2.1
+    refine Post.ite ?_ ?_
+    · refine Post.mono (taxaBlock_post _) ?_
+      intro a ha; simp only [LeQ] at ha; (try dsimp only at ha); omega
+    · refine Post.ite ?_ ?_
+      · refine Post.mono (charsBlock_post _ _) ?_
+        intro a ha; simp only [LeQ] at ha; (try dsimp only at ha); omega
+      · refine Post.ite ?_ ?_
+        · refine Post.mono (treesBlock_post _) ?_
+          intro a ha; simp only [LeQ] at ha; (try dsimp only at ha); omega
+        · refine Post.ite ?_ ?_
+          · refine Post.mono (setsBlock_post _) ?_
+            intro a ha; simp only [LeQ] at ha; (try dsimp only at ha); omega
+          · refine Post.ite (Post.perr _) ?_
+            refine Post.mono (consumeToEnd_post _ _) ?_
+            intro a ha; simp only [LeQ] at ha; (try dsimp only at ha); omega
+
+/-- **the whole NEXUS reader**: never `internal`, on any text -/
+theorem readNexus_post (sy : Syms) (text : List Char) : Post (readNexus sy text) (fun _ => True) := by
+  unfold readNexus
+  pb
+  split
+  · pfin
+  · refine Post.ite (Post.perr _) ?_
+    refine Post.mono (iter_post _ ?_ _) (fun _ _ => trivial)
+    intro s
+    refine Post.ite' (fun _ => ?_) (fun hc => ?_)
+    · pfin
+    · have hne : s.rest ≠ [] := by intro he; apply hc; simp [RS.eof, he]
+      refine Post.bind (readBlock_post sy s hne) ?_
+      intro s1 h1
+      pfin
+
+
+end DendroModel.C20.Aux
+
+namespace DendroModel.C20
+open DendroModel DendroModel.C20.Aux
+
+/-- **The loop rule of the reader model.**  A loop built with `iter` whose body, from every state, either stops or
+has consumed input (`BodyQ`) never produces the no-progress marker and never returns more input than it was given. -/
+theorem reader_loop_rule (b : RS → R (Bool × RS)) (hb : ∀ s, Post (b s) (BodyQ s)) (s : RS) (w : String) :
     iter b s ≠ .error (.internal w) ∧ ∀ s', iter b s = .ok s' → s'.rest.length ≤ s.rest.length :=
-  ⟨(iter_good b hb).noInt s w, (iter_good b hb).le s⟩
+  ⟨(iter_post b hb s).1 w, fun s' h => (iter_post b hb s).2 s' h⟩
+
+/-- **No loop of the NEXUS reader can spin.**  For every symbol table and every text — complete, corrupted or cut at
+any point — `readNexus` (main block loop, TAXA / CHARACTERS / DATA / TREES / SETS block loops, TITLE, LINK, DIMENSIONS,
+FORMAT incl. the SYMBOLS loop, TAXLABELS, TRANSLATE, the TREE-statement loop, MATRIX with both row readers,
+`skip_to_semicolon`, `_consume_to_end_of_block`) returns a result or a parse error; the marker `internal`, which the
+model produces exactly when a loop would continue without having consumed input, is unreachable.  (The `None`-token
+dereferences of the unrepaired code have no counterpart in the model: tokens read with `require_next_token` are
+`List Char`, tokens read with `next_token` are `Option` and every use of them is a case distinction.) -/
+theorem nexus_never_internal (sy : Syms) (text : List Char) (w : String) : readNexus sy text ≠ .error (.internal w) :=
+  (readNexus_post sy text).1 w
+
+/-- **Declared versus found (NEXUS MATRIX).**  Whenever `_parse_matrix_statement` returns, NTAX and NCHAR were declared
+and positive, and the matrix it has appended has rows of exactly the declared NCHAR — in sequential and in interleaved
+mode, whatever the rows looked like — and no more rows than an NTAX given by the block's own DIMENSIONS statement. -/
+theorem nexus_matrix_dims (sy : Syms) (s s' : RS) (h : parseMatrix sy s = .ok s') :
+    0 < s.ntax.getD 0 ∧ 0 < s.nchar.getD 0 ∧
+    ∃ row, s'.mats.getLast? = some row ∧ (∀ x ∈ row, x = s.nchar.getD 0) ∧ (∀ n, s'.blockNtax = some n → row.length ≤ n) :=
+  (parseMatrix_dims sy s).2 s' h
+
+/-- **`nesting - 1` never truncates.**  The machine's invariant is preserved by every step, and under it a state that
+is reading children (where a `)` decrements the nesting level) has a positive level: the natural-number subtraction of
+the model coincides with Python's integer subtraction. -/
+theorem nesting_sub_safe (k : Cfg) (st st' : NState) (hi : Inv st) (h : step k st = .next st') :
+    Inv st' ∧ (st.phase ≠ .lab → 0 < st.nesting) := by
+  refine ⟨inv_step k st st' hi h, fun hph => ?_⟩
+  obtain ⟨_, _, _, hrel⟩ := hi
+  simp only [hph, if_false] at hrel
+  omega
+
+/-- **The statement parser always has a token to start from.**  After the loop that skips semicolons, either the
+stream is at its end (and `_parse_tree_statement` returns `None`) or the current token is a real token other than an
+unquoted `;` — the `None` case the model lists for completeness is unreachable. -/
+theorem skipSemis_leaves_token (k : Cfg) (cur : Option Tok) (rest : List Char) (started : Bool)
+    (c : Option Tok) (r : List Char) (s : Bool) (h : skipSemis k cur rest started = .ok (c, r, s))
+    (hne : ¬ (s = true ∧ r = [])) : c ≠ none ∧ c ≠ some semi ∧ r.length ≤ rest.length := by
+  have := skipSemis_le k rest.length cur rest started (Nat.le_refl _) c r s h
+  exact ⟨(this.2 hne).2, (this.2 hne).1, this.1⟩
 
 /-! ### non-vacuity: the hypotheses of the theorems above are satisfiable -/
+
+/-- `reader_loop_rule`: the body of `skip_to_semicolon` is such a body -/
+example : ∃ b : RS → R (Bool × RS), ∀ s, Post (b s) (BodyQ s) :=
+  ⟨_, fun s => (show Post ((fun (s : RS) => do
+      let (t, s) ← nextUcase s
+      pure (t.isSome && t != some (kw "BEGIN") && !s.eof, s)) s) (BodyQ s) from skipToBegin_body s)⟩
 
 /-- `tokenizer_progress`: a token is read from `a;` -/
 example : nextT {} ['a', ';'] = .tok ['a'] false [';'] := by
